@@ -148,6 +148,8 @@ type World struct {
 	stagesHook func(stage, path string)
 	stagesMu   sync.Mutex
 	inflight   int
+	turnLog    []int
+	orderPos   int
 	cands      [maxTasks]cand
 	blocked    [maxTasks]bool
 }
@@ -188,6 +190,7 @@ func (w *World) Emu(i int) *redisemu.RedisEmu {
 }
 
 type RunResult struct {
+	TurnLog []int
 	Plan    *Plan
 	Tape    []uint32
 	Viol    *Violation
@@ -231,6 +234,7 @@ func RunPlan(t *testing.T, plan *Plan, tape *Tape, mk func(*Plan) Checker, keepL
 	redisemu.SimInstall(nil)
 	res.Tape = append([]uint32(nil), tape.used()...)
 	res.Viol = w.viol
+	res.TurnLog = w.turnLog
 	res.History = w.history
 	res.Log = w.log
 	w.stats.SchedFp = w.fp
@@ -600,6 +604,9 @@ func (w *World) clientEnabled(c *simClient, ntask int) bool {
 	if c.pos >= len(c.plan.Items) {
 		return false
 	}
+	if o := w.plan.Knobs.Order; w.orderPos < len(o) && o[w.orderPos] != c.idx {
+		return false
+	}
 	it := &c.plan.Items[c.pos]
 	switch it.Op {
 	case "":
@@ -698,7 +705,18 @@ func (w *World) emuClientId(c *simClient) int64 {
 	return redisemu.SimClientIdByAddr(string(c.conn.remote))
 }
 
+func (w *World) consumed(c *simClient) {
+	w.turnLog = append(w.turnLog, c.idx)
+	w.orderPos++
+}
+
 func (w *World) clientStep(c *simClient) {
+	pos0 := c.pos
+	defer func() {
+		if c.pos > pos0 {
+			w.consumed(c)
+		}
+	}()
 	if c.busy {
 		c.busy = false
 		c.busyDone = nil
